@@ -109,7 +109,7 @@ def plan(tier, seed):
         for sh in range(nsh // 2):
             specs.append({"kind": "words", "cfg": ci, "syms": syms, "L": L, "part": sh,
                           "parts": nsh // 2, "seed": common.seed_for(PROP, tier, seed, ci)})
-    specs += common.session_plan(PROP, tier, seed, quick=800, thorough=16000,
+    specs += common.session_plan(PROP, tier, seed, quick=2400, thorough=32000,
                                  nshards_quick=8, nshards_thorough=16)
     return specs
 
